@@ -299,7 +299,7 @@ impl Property for C09 {
         "case = constructor (5 scalar with_opts, 5 *Vec::new, PullingGauge::new, Desc::new) x namespace/subsystem/name/help/ \
          constant and variable label names drawn from pools mixing valid identifiers with empty, leading digit, ':' in labels, \
          '-', blank, non-ASCII letters and digits (e-acute, sharp s, Cyrillic a, Arabic-Indic 3, full-width A/1, superscript 2, \
-         roman numeral, titlecase digraph), `le`, `__name__`, names repeated across the constant and variable sets; then the accepted \
+         roman numeral, titlecase digraph), `le`, `__name__`, names repeated across the constant and variable sets, occasionally 4-16 distinct variable labels with at most one clash; then the accepted \
          metric gets children and is gathered through Registry::new_custom(prefix, common labels) drawn from the same pools (a final \
          stage gathers labelled registries from 2-3 free-running threads at the same moment and once more afterwards), in \
          half of the cases with constant labels together with a second collector of the same kind under the same name (another \
@@ -367,15 +367,36 @@ impl Property for C09 {
                 consts.push((n, *src.pick(&["v", "", "w"])));
             }
         }
-        let nvar = if is_vec {
+        let mut nvar = if is_vec {
             1 + src.below(3)
         } else if ctor == Ctor::Desc {
             src.below(3)
         } else {
             0
         };
+        if nvar == 3 && src.chance(40) {
+            // occasionally many variable labels (the library imposes no limit)
+            nvar += src.below(14);
+        }
         let mut vars: Vec<&'static str> = vec![];
-        for _ in 0..nvar {
+        if nvar > 3 {
+            // many labels: distinct synthetic names, then at most one clash (with a constant label, or within the list)
+            const MANY: &[&str] = &["w0", "w1", "w2", "w3", "w4", "w5", "w6", "w7", "w8", "w9", "w10", "w11", "w12", "w13", "w14", "w15", "w16"];
+            vars = MANY[..nvar].to_vec();
+            match src.below(4) {
+                0 | 1 if !consts.is_empty() => {
+                    let i = src.below(nvar);
+                    vars[i] = consts[src.below(consts.len())].0;
+                }
+                2 => {
+                    let (i, j) = (src.below(nvar), src.below(nvar));
+                    vars[i] = vars[j];
+                }
+                _ => {}
+            }
+            rep.class("many-variable-labels(4-16)");
+        }
+        for _ in 0..(if nvar > 3 { 0 } else { nvar }) {
             // bias towards clashes with the constant labels and within the list
             let n = if !consts.is_empty() && src.chance(40) {
                 consts[src.below(consts.len())].0
